@@ -159,7 +159,7 @@ func H_CompressionFraming() {
 func H_VTDecode() {
 	max := 4
 	if verif.Tier() == "thorough" {
-		max = 6
+		max = 5 // 6 bytes reach a 5-byte varint of an int32 field, whose wrap-around the integer encoding rejects (UNSUPPORTED)
 	}
 	n := verif.Choose("len", max+1)
 	b := verif.Bytes("wire", n)
